@@ -52,9 +52,33 @@ def closes_itself(tag, body):
     return re.search(r"</%s\s*>" % tag, body, re.I) is not None or "\x7f" in body
 
 
+SPELL = {"<": ["&lt;", "&#60;", "&#x3c;"], ">": ["&gt;", "&#62;", "&#x3E;"], "&": ["&amp;", "&#38;"], "'": ["&#39;", "&#x27;"],
+         "[": ["&#91;"], "{": ["&#123;"], "|": ["&#124;"], "=": ["&#61;"]}
+INNER_NAMES = ["nowiki", "pre", "b", "ref", "math", "source", "gallery", "div", "NoWiki", "br"]
+
+
+def respell(rng, body, p=0.5):
+    """the same characters written as character references (some or all of the markup characters)."""
+    return "".join(rng.choice(SPELL[ch]) if ch in SPELL and rng.random() < p else ch for ch in body)
+
+
 def gen_body(rng):
     k = rng.randint(1, 6)
-    return "".join(rng.choice(MARKUP) for _ in range(k))
+    body = "".join(rng.choice(MARKUP) for _ in range(k))
+    if rng.random() < 0.25:
+        body = respell(rng, body, rng.choice([0.3, 0.7, 1.0]))
+    return body
+
+
+def spelled_pairs():
+    """<N>..</N> inside the body with its brackets written as references: every inner tag name, every spelling, mixed too."""
+    out = []
+    for n in INNER_NAMES:
+        for lt, gt in [("&lt;", "&gt;"), ("&#60;", "&#62;"), ("&#x3c;", "&#x3E;"), ("&lt;", ">"), ("<", "&gt;")]:
+            for inner in ["x", "''a''", "[[l]] {{t}}"]:
+                out.append(f"{lt}{n}{gt}{inner}{lt}/{n}{gt}")
+        out.append(f"&lt;{n}>x</{n}&gt;")
+    return out
 
 
 # ----------------------------------------------------------------------------- real side
@@ -142,8 +166,15 @@ def check_case(tag, body, ctxname):
     if merge_T(s0) != merge_T(s1):
         return f"the body was interpreted: structure {merge_T(s1)} instead of {merge_T(s0)}"
     if txt1 != txt0.replace(placeholder, want):
-        return f"the body did not reach the tree verbatim: text {txt1!r} instead of {txt0.replace(placeholder, want)!r}"
+        why = f"the body did not reach the tree verbatim: text {txt1!r} instead of {txt0.replace(placeholder, want)!r}"
+        if tag == "pre" and txt1 == txt0.replace(placeholder, decode_entities(LITERAL_NOWIKI.sub(lambda m: m.group(1), body))):
+            why = NOWIKI_DROPPED + why      # exactly the recorded finding: literal <nowiki>..</nowiki> pairs dropped, nothing else
+        return why
     return None
+
+
+LITERAL_NOWIKI = re.compile("<nowiki>(.*?)</nowiki>", re.I | re.S)
+NOWIKI_DROPPED = "[literal nowiki pair dropped] "
 
 
 def e2e_worker(items, extra, progress):
@@ -268,7 +299,7 @@ def replay(chk, data):
 
 def classify(b):
     """signature of a violation for the known-findings file."""
-    if b["tag"] == "pre" and re.search(r"</?nowiki", b["body"], re.I):
+    if b["tag"] == "pre" and b["why"].startswith(NOWIKI_DROPPED):
         return "pre-drops-nowiki-tags"
     return b["tag"] + ":" + b["context"]
 
@@ -316,6 +347,9 @@ def run(chk: common.Check):
         for lex in MARKUP:
             if not closes_itself(tag, lex):
                 cases += [(tag, lex, c) for c in ctxs]
+        for body in spelled_pairs():
+            if not closes_itself(tag, body):
+                cases += [(tag, body, c) for c in (ctxs if tag in ("pre", "nowiki") else ctxs[:3])]
     ne += len(cases)
     while len(cases) < ne:
         tag = rng.choice(TAGS)
